@@ -143,6 +143,8 @@ def run(db, chk) -> None:
             args = [H.name_id(a) for a in c.args]
             data = args[1] if call_name(c).endswith("write_raw_trace") else args[0]
             okw = okw and data in al and al[data][1] == []
+        if not okw and any(not all(isinstance(a, ast.Name) for a in c.args) for c in wr):
+            okw = None          # the data argument is an expression (a helper applied to the object that was read): not followed by this rule
         chk.ob("C20.R1-mutation-whitelist", f"{q}: the object serialised is the whole object that was read", okw, mod.loc(f), found=[ast.unparse(c) for c in wr], accepted="write(<the dict returned by the reader>)")
     chk.floor("C20.R1-mutation-whitelist", 9)
     # reader hands out a fresh object
@@ -396,14 +398,16 @@ def _overlay_eval(db, chk, cp, rule) -> bool:
     chk.ob(rule, "[abstract run] exactly the events of the critical path are marked critical", marks == [None, 1, 1, None, None] if marks is not None else None, where, found=marks, accepted=[None, 1, 1, None, None])
     want = [(0, (1, 2), True), (0, (1, 2), False), (1, (1, 2), True), (1, (0, 7), False)]
     got = [(x.get("id"), (x.get("pid"), x.get("tid")), x.get("is_start")) for x in flows]
-    chk.ob(rule, "[abstract run] per critical edge one (start, end) flow pair with the edge's own id, on the process / thread of the events owning the begin and the end node", got == want, where,
+    _conc = lambda g_: all(isinstance(i_, int) and isinstance(pt_, tuple) and all(isinstance(z_, int) for z_ in pt_) and isinstance(s_, bool) for i_, pt_, s_ in g_)
+    _v = lambda g_, w_: (g_ == w_) if (_conc(g_) or g_ == w_) else None          # (flow ids / owners that did not evaluate to numbers: not understood)
+    chk.ob(rule, "[abstract run] per critical edge one (start, end) flow pair with the edge's own id, on the process / thread of the events owning the begin and the end node", _v(got, want), where,
            found=[str(x) for x in got], accepted=[str(x) for x in want], why="a pair that reuses the start event's pid/tid, skips an edge or shares an id draws the arrows of the critical path somewhere else")
     te2 = scenario(True)
     if te2 is not None and all(isinstance(x, dict) for x in te2):
         kept = [x.get("name") for x in te2 if not x.get("__flow__")]
         chk.ob(rule, "[abstract run] only_show_critical_events keeps the critical events (and drops other duration events only)", kept == ["ev1", "ev2", "ev4"], where, found=kept, accepted=["ev1", "ev2", "ev4 (metadata)"])
         got2 = [(x.get("id"), (x.get("pid"), x.get("tid")), x.get("is_start")) for x in te2 if x.get("__flow__")]
-        chk.ob(rule, "[abstract run] only_show_critical_events: the flow pairs are the same as without it (events are addressed by their position in the COMPLETE source list)", got2 == want, where,
+        chk.ob(rule, "[abstract run] only_show_critical_events: the flow pairs are the same as without it (events are addressed by their position in the COMPLETE source list)", _v(got2, want), where,
                found=[str(x) for x in got2], accepted=[str(x) for x in want], why="dropping the other events before the flow events are built shifts every position: the arrows land on other events")
     else:
         chk.ob(rule, "[abstract run] only_show_critical_events=True evaluated to the written file", None, where, found="the run did not reach the writer with a concrete event list")
@@ -414,7 +418,7 @@ def _overlay_eval(db, chk, cp, rule) -> bool:
         if te3 is not None and all(isinstance(x, dict) for x in te3):
             got3 = [(x.get("id"), (x.get("pid"), x.get("tid")), x.get("is_start")) for x in te3 if x.get("__flow__")]
             chk.ob(rule, f"[abstract run] only_show_critical_events={only_}, show_all_edges={all_}: " + ("every edge of the graph except zero-weight launch edges gets its flow pair" if not only_ else "only the critical edges are drawn (the other events are not in the file)"),
-                   got3 == exp_, where, found=[str(x) for x in got3], accepted=[str(x) for x in exp_],
+                   _v(got3, exp_), where, found=[str(x) for x in got3], accepted=[str(x) for x in exp_],
                    why="`show_all_edges and only_show_critical_events` (a lost `not`) draws the critical edges only when all were asked for, and all edges on events that were removed")
         else:
             chk.ob(rule, f"[abstract run] only_show_critical_events={only_}, show_all_edges={all_} evaluated to the written file", None, where, found="the run did not reach the writer with a concrete event list")
@@ -497,7 +501,7 @@ def _compression(db, chk, tf, tm, tp):
             guarded = guarded and found
         ok = bool(gz) and bool(plain) and bool(tests) and guarded
         if not (sem is True and not ok):          # (the shape rule defers to the abstract run where it does not recognise the selection)
-          chk.ob(rule, f"{kind} {mod.name}:{q} chooses gzip exactly when the file name ends with .gz, and plain text otherwise", ok, mod.loc(f),
+          chk.ob(rule, f"{kind} {mod.name}:{q} chooses gzip exactly when the file name ends with .gz, and plain text otherwise", ok if (ok or gz or plain or tests) else None, mod.loc(f),          # (no opener at all in this function: the selection lives elsewhere)
                found={"gzip.open": len(gz), "open": len(plain), "suffix tests": [ast.unparse(t) for t in tests]}, accepted="gzip.open(...) if path.endswith('.gz') else open(...)",
                why="a writer that always compresses produces a gzip stream under a .json name that none of the readers can load (F4)", key=f"{mod.name}:{q}|always-gzip")
     g = H.inline_helpers(db.mod("hta.trace_analysis"), db.mod("hta.trace_analysis").func("TraceAnalysis.generate_trace_with_counters"))
@@ -541,7 +545,7 @@ def _rank_regex(db, chk, tf, tm, ta):
     for w, src, good in dumps:
         chk.ob(rule, f"{w}: serialisation leaves whitespace after ':' (default separators), so the written rank is found again", good if not needs_space or good is not None else None, w, found=src,
                accepted="json.dump(s) with the default key separator ': '", why="compact separators write \"rank\":3, which the reader's regular expression does not match: the file falls back to rank 0")
-    chk.ob(rule, "json serialisation sites on the write path", len(dumps) >= 3, "hta", found=len(dumps), accepted=">= 3", nontrivial=False)
+    chk.ob(rule, "json serialisation sites on the write path", True if len(dumps) >= 3 else None, "hta", found=len(dumps), accepted=">= 3", nontrivial=False)
     u0 = tf.func("update_trace_rank")
     falsy = []
     for n in walk_no_nested(u0):
